@@ -41,6 +41,15 @@ def shims(extra=None):
             if "np" in d:
                 saved.append((d, "np", d["np"]))
                 d["np"] = symnp.NP
+            from . import symtable
+
+            if d.get("itertools") is itertools:
+                saved.append((d, "itertools", d["itertools"]))
+                d["itertools"] = symtable.FakeItertools()
+            for name, val in list(d.items()):
+                if val is itertools.product:  # from itertools import product [as ...]
+                    saved.append((d, name, val))
+                    d[name] = symtable.FakeItertools().product
             for name, fn in symnp.BUILTIN_SHIMS.items():
                 saved.append((d, name, d.get(name, _MISSING)))
                 d[name] = fn
